@@ -300,4 +300,525 @@ theorem hreadJ {p : Prog} {u : State → Nat → State × Bool} {f : Nat} (hu : 
     subst hs3
     exact LogOK.emit (s := s2.upd e _) l2 (by intro i; simp)
 
+theorem hwriteJ {p : Prog} {e : Nat} (F : Nat) (hF : p.length ≤ F) (s : State) (x : Nat) (v0 v : Int)
+    (h : InvR p s) (hl : EffLoc s e) (hq : QJ s e) (hx : p[x]? = some (.sig v0)) :
+    QJ (setSignal F s x v) e := by
+  obtain ⟨h', sp⟩ := setSignal_inv h hx v (f := F) (by rw [h.len]; exact hF)
+  have hex : e ≠ x := by
+    intro hc; subst hc
+    have := h.kind e _ hx
+    rw [hl.kind] at this; cases this
+  refine ⟨?_, ?_, sp.log hq.log⟩
+  · intro i hk hr
+    rw [sp.kind] at hk; rw [sp.running] at hr
+    exact (hq.others i hk hr).of_set h hx v sp hk
+  · have cf := Node.core_fields (setSignal_core F s x v e hex)
+    have hver : ∀ y, (s.get y).ver ≤ ((setSignal F s x v).get y).ver := by
+      intro y; by_cases hy : y = x
+      · subst hy; rw [sp.verx]; omega
+      · rw [sp.ver y hy]; exact Nat.le_refl _
+    refine ⟨by rw [cf.2.2.1, cf.2.2.2.2.2.2.1]; exact hq.self.srcSeen, ?_, by rw [cf.2.2.2.2.1]; exact hq.self.noFirst⟩
+    intro hd
+    rcases setSignal_dirty F s x v e hex hd with h1 | h1
+    · exact witness_mono h cf.2.2.2.2.2.2.1 hver (hq.self.dirtyJ h1)
+    · have hsrc : x ∈ (s.get e).sources := (h.edge x e).1 h1
+      rw [hq.self.srcSeen] at hsrc
+      exact witness_new h cf.2.2.2.2.2.2.1 hsrc (by rw [sp.verx]; omega)
+
+/-! ## between operations -/
+
+structure TopJ (p : Prog) (s : State) : Prop where
+  quiet : Quiet p s
+  effJ : InvJ s
+  log : LogOK s
+
+/-- updating flags of an effect that `EffJ` does not mention, or clearing `dirty` / `first` -/
+theorem TopJ.flagEff {p : Prog} {s : State} (h : TopJ p s) {e : Nat} (hk : (s.get e).kind = .eff)
+    (g : Node → Node) (gc : ∀ n, (g n).kind = n.kind ∧ (g n).sources = n.sources ∧ (g n).subs = n.subs ∧
+      (g n).seen = n.seen ∧ (g n).ver = n.ver ∧ (g n).running = n.running)
+    (gr : ∀ n, (g n).runs = n.runs) (gd : ∀ n, (g n).dirty = true → n.dirty = true)
+    (gf : ∀ n, (g n).first = true → n.first = true) :
+    TopJ p (s.upd e g) ∧ ((s.upd e g).get e).kind = .eff := by
+  obtain ⟨q, hk'⟩ := h.quiet.flagEff hk g gc
+  refine ⟨⟨q, ?_, h.log⟩, hk'⟩
+  have he : e < s.nodes.length := s.lt_of_kind_ne (by rw [hk]; simp)
+  generalize hs' : s.upd e g = s'
+  have ge : s'.get e = g (s.get e) := by subst hs'; rw [State.get_upd_same _ _ he]
+  have go : ∀ i, i ≠ e → s'.get i = s.get i := by
+    intro i hi; subst hs'; rw [State.get_upd_ne _ _ (Ne.symm hi)]
+  have verE : ∀ i, (s'.get i).ver = (s.get i).ver := by
+    intro i; by_cases hi : i = e
+    · subst hi; rw [ge]; exact (gc _).2.2.2.2.1
+    · rw [go i hi]
+  intro i hki hri
+  by_cases hie : i = e
+  · subst hie
+    rw [ge] at hki hri
+    have c := gc (s.get i)
+    have j := h.effJ i hk (by rw [← c.2.2.2.2.2]; exact hri)
+    refine ⟨by rw [ge, c.2.1, c.2.2.2.1]; exact j.srcSeen, ?_, fun hf => ?_⟩
+    · intro hd hruns
+      rw [ge] at hd hruns
+      rw [gr] at hruns
+      obtain ⟨z, hz, hne⟩ := j.dirtyJ (gd _ hd) hruns
+      exact ⟨z, by rw [ge, c.2.2.2.1]; exact hz, by rw [verE]; exact hne⟩
+    · rw [ge] at hf ⊢; rw [gr]; exact j.firstJ (gf _ hf)
+  · rw [go i hie] at hki hri
+    have j := h.effJ i hki hri
+    refine ⟨by rw [go i hie]; exact j.srcSeen, ?_, by rw [go i hie]; exact j.firstJ⟩
+    intro hd hruns
+    rw [go i hie] at hd hruns ⊢
+    obtain ⟨z, hz, hne⟩ := j.dirtyJ hd hruns
+    exact ⟨z, hz, by rw [verE]; exact hne⟩
+
+theorem TopJ.of_upd {p : Prog} {s : State} {x : Nat} {r : State × Bool} (h : TopJ p s)
+    (up : UpdPost p s x r) : TopJ p r.1 :=
+  ⟨⟨up.inv, fun i => (up.running i).trans (h.quiet.idle i)⟩, h.effJ.of_frame h.quiet.inv up.frame,
+   up.frame.log h.log⟩
+
+theorem walk_specJ {p : Prog} {u : State → Nat → State × Bool} {f : Nat} (hu : UpdOK p u f)
+    (e : Nat) : ∀ (l : List Nat) (s : State), (∀ x ∈ l, x < f) → TopJ p s → (s.get e).kind = .eff →
+      (∀ x ∈ l, x ∈ (s.get e).sources) →
+      TopJ p (anySrc u false e l s).1 ∧
+      (∀ i, ((anySrc u false e l s).1.get i).kind = (s.get i).kind) ∧
+      ((anySrc u false e l s).2 = true → ((anySrc u false e l s).1.get e).runs ≠ 0 →
+        ∃ z ∈ ((anySrc u false e l s).1.get e).seen, ((anySrc u false e l s).1.get z.1).ver ≠ z.2.2)
+  | [], s, _, h, _, _ => ⟨h, fun _ => rfl, fun hc => by cases hc⟩
+  | x :: l, s, hl, h, hk, hsrc => by
+    have up := hu s x h.quiet.inv (hl x List.mem_cons_self) (h.quiet.idle x)
+      (fun r hr => by rw [h.quiet.idle r] at hr; cases hr)
+    unfold anySrc
+    generalize u s x = r at up
+    obtain ⟨s1, ch⟩ := r
+    have t1 : TopJ p s1 := h.of_upd up
+    have cf := Node.core_fields (up.frame.effCore e hk)
+    simp only
+    split
+    · next hc =>
+      refine ⟨t1, up.frame.kind, fun _ _ => ?_⟩
+      have hch : ch = true := by simpa using hc
+      have hv : (s.get x).ver < (s1.get x).ver := up.ver hch
+      have hx := hsrc x List.mem_cons_self
+      rw [(h.effJ e hk (h.quiet.idle e)).srcSeen] at hx
+      exact witness_new h.quiet.inv cf.2.2.2.2.2.2.1 hx hv
+    · have ih := walk_specJ hu e l s1 (fun y hy => hl y (List.mem_cons_of_mem _ hy)) t1
+        (by rw [up.frame.kind]; exact hk)
+        (fun y hy => by
+          show y ∈ (s1.get e).sources
+          rw [cf.2.2.1]; exact hsrc y (List.mem_cons_of_mem _ hy))
+      exact ⟨ih.1, fun i => (ih.2.1 i).trans (up.frame.kind i), ih.2.2⟩
+
+/-- clearing the `dirty` flag keeps `TopJ` and every version witness -/
+theorem clearDirty_J {p : Prog} {s : State} {e : Nat} (h : TopJ p s) (hk : (s.get e).kind = .eff) :
+    TopJ p (s.upd e fun n => { n with dirty := false }) ∧
+    ((s.upd e fun n => { n with dirty := false }).get e).kind = .eff ∧
+    (((s.get e).runs ≠ 0 → ∃ z ∈ (s.get e).seen, (s.get z.1).ver ≠ z.2.2) →
+      ((s.upd e fun n => { n with dirty := false }).get e).runs ≠ 0 →
+      ∃ z ∈ ((s.upd e fun n => { n with dirty := false }).get e).seen,
+        ((s.upd e fun n => { n with dirty := false }).get z.1).ver ≠ z.2.2) := by
+  obtain ⟨t, hk'⟩ := h.flagEff hk (fun n => { n with dirty := false })
+    (fun _ => ⟨rfl, rfl, rfl, rfl, rfl, rfl⟩) (fun _ => rfl) (fun _ hd => by cases hd) (fun _ hf => hf)
+  refine ⟨t, hk', ?_⟩
+  have he : e < s.nodes.length := s.lt_of_kind_ne (by rw [hk]; simp)
+  have verE : ∀ i, ((s.upd e fun n => { n with dirty := false }).get i).ver = (s.get i).ver := by
+    intro i; rw [State.get_upd]; split <;> rfl
+  rw [State.get_upd_same _ _ he]
+  intro hw hruns
+  obtain ⟨z, hz, hne⟩ := hw hruns
+  exact ⟨z, hz, by rw [verE]; exact hne⟩
+
+theorem effUpdate_specJ {p : Prog} {f : Nat} (hu : UpdOK p (upd p f) f) (hf : p.length ≤ f)
+    {s : State} {e : Nat} (h : TopJ p s) (hk : (s.get e).kind = .eff) :
+    TopJ p ({ (effUpdate p f { s with obs := some e } e).1 with obs := none }) ∧
+    ((effUpdate p f { s with obs := some e } e).1.get e).kind = .eff ∧
+    ((effUpdate p f { s with obs := some e } e).1.get e).dirty = false ∧
+    ((effUpdate p f { s with obs := some e } e).2 = true →
+      ((effUpdate p f { s with obs := some e } e).1.get e).runs ≠ 0 →
+      ∃ z ∈ ((effUpdate p f { s with obs := some e } e).1.get e).seen,
+        ((effUpdate p f { s with obs := some e } e).1.get z.1).ver ≠ z.2.2) := by
+  have hobs := h.quiet.obs
+  have he : e < s.nodes.length := s.lt_of_kind_ne (by rw [hk]; simp)
+  cases hd : (s.get e).dirty with
+  | true =>
+    rw [effUpdate_dirty p f { s with obs := some e } e hd]
+    have e1 : ({ (({ s with obs := some e } : State).upd e fun n => { n with dirty := false }) with
+        obs := none } : State) = ({ s with obs := none } : State).upd e fun n => { n with dirty := false } := rfl
+    have c := clearDirty_J h hk
+    simp only
+    rw [e1, State.setObs_none_eq hobs]
+    exact ⟨c.1, c.2.1, by rw [State.get_upd_same (s := { s with obs := some e }) _ he],
+      fun _ => c.2.2 (fun hruns => (h.effJ e hk (h.quiet.idle e)).dirtyJ hd hruns)⟩
+  | false =>
+    rw [effUpdate_clean p f { s with obs := some e } e hd]
+    have e0 : ({ ({ s with obs := some e } : State) with obs := none } : State) = s :=
+      State.setObs_none_eq hobs
+    simp only [State.setObs_get]
+    rw [e0]
+    have hw := walk_specJ hu e (s.get e).sources s (fun x hx => by
+      have := h.quiet.inv.srcLt e x hx
+      have := h.quiet.inv.len
+      omega) h hk (fun x hx => hx)
+    generalize anySrc (upd p f) false e (s.get e).sources s = r at hw
+    obtain ⟨s2, any⟩ := r
+    simp only at hw ⊢
+    obtain ⟨t2, hkind, hwit⟩ := hw
+    have hk2 : (s2.get e).kind = .eff := by rw [hkind]; exact hk
+    have e1 : ({ (({ s2 with obs := some e } : State).upd e fun n => { n with dirty := false }) with
+        obs := none } : State) = ({ s2 with obs := none } : State).upd e fun n => { n with dirty := false } := rfl
+    have c := clearDirty_J t2 hk2
+    rw [e1, State.setObs_none_eq t2.quiet.obs]
+    have he2 : e < s2.nodes.length := s2.lt_of_kind_ne (by rw [hk2]; simp)
+    refine ⟨c.1, c.2.1, by rw [State.get_upd_same (s := { s2 with obs := some e }) _ he2],
+      fun hneed => c.2.2 (fun hruns => ?_)⟩
+    by_cases ha : any = true
+    · exact hwit ha hruns
+    · have hd2 : (s2.get e).dirty = true := by
+        simp only [Bool.or_eq_true] at hneed
+        rcases hneed with h' | h'
+        · exact absurd h' ha
+        · exact h'
+      exact (t2.effJ e hk2 (t2.quiet.idle e)).dirtyJ hd2 hruns
+
+theorem noteRun_log_ok {s : State} {id : Nat} (hl : LogOK s) (hj : justified s id = true) :
+    LogOK (noteRun s id) := by
+  unfold noteRun
+  rw [hj]
+  simp only [if_true]
+  intro i hi
+  simp only [State.emit_log, State.upd_log, List.mem_append, List.mem_singleton] at hi
+  rcases hi with hi | hi
+  · exact hl i hi
+  · cases hi
+
+theorem effRun_specJ {p : Prog} {f : Nat} (hu : UpdOK p (upd p f) f) (hf : p.length < f)
+    (hpe : EffOK p) {s : State} {e : Nat} (h : TopJ p s) (hk : (s.get e).kind = .eff)
+    (hd : (s.get e).dirty = false)
+    (hj : (s.get e).runs ≠ 0 → ∃ z ∈ (s.get e).seen, (s.get z.1).ver ≠ z.2.2) :
+    TopJ p (effRun p f s e none) ∧ ((effRun p f s e none).get e).kind = .eff := by
+  have he : e < s.nodes.length := s.lt_of_kind_ne (by rw [hk]; simp)
+  have hep : e < p.length := by rw [← h.quiet.inv.len]; exact he
+  have q1 := h.quiet.updEff hk (fun n => { n with first := false }) hk rfl rfl (fun _ hx => hx)
+    (Nat.le_refl _) (h.quiet.idle e)
+  unfold effRun
+  generalize hs1 : (s.upd e fun n => { n with first := false }) = s1 at q1
+  have g1e : s1.get e = { s.get e with first := false } := by subst hs1; rw [State.get_upd_same _ _ he]
+  have g1o : ∀ i, i ≠ e → s1.get i = s.get i := by
+    intro i hi; subst hs1; rw [State.get_upd_ne _ _ (Ne.symm hi)]
+  have log1 : s1.log = s.log := by subst hs1; rfl
+  have hk1 : (s1.get e).kind = .eff := by rw [g1e]; exact hk
+  have he1 : e < s1.nodes.length := by subst hs1; simpa using he
+  have t := clearSources_post (s := s1) (m := e) q1.inv.nodup
+    (fun i hni hc => hni ((q1.inv.edge i e).1 hc))
+    (fun hc => Nat.lt_irrefl e (q1.inv.srcLt e e hc)) he1
+  have h2 := clearSources_inv_eff q1.inv t hk1
+  simp only
+  generalize clearSources s1 e = s2 at t h2
+  have hk2 : (s2.get e).kind = .eff := by rw [t.gm]; exact hk1
+  have he2 : e < s2.nodes.length := by rw [t.len]; exact he1
+  have idle2 : ∀ i, (s2.get i).running = false := by
+    intro i; by_cases hi : i = e
+    · subst hi; rw [t.gm]; exact q1.idle i
+    · rw [t.go i hi]; exact q1.idle i
+  have ver2 : ∀ i, (s2.get i).ver = (s.get i).ver := by
+    intro i; by_cases hi : i = e
+    · subst hi; rw [t.gm, g1e]
+    · rw [t.go i hi, g1o i hi]
+  -- the run is justified
+  have hjust : justified s2 e = true := by
+    unfold justified
+    rw [t.gm, g1e]
+    simp only [Bool.or_eq_true, beq_iff_eq, List.any_eq_true]
+    by_cases hr : (s.get e).runs = 0
+    · exact .inl hr
+    · obtain ⟨z, hz, hne⟩ := hj hr
+      refine .inr ⟨z, hz, ?_⟩
+      obtain ⟨x, v, vx⟩ := z
+      simp only [ver2]
+      simpa using hne
+  have log3 : LogOK (noteRun s2 e) :=
+    noteRun_log_ok (by intro i; rw [t.log, log1]; exact h.log i) hjust
+  generalize hs4 : ({ noteRun s2 e with obs := some e } : State) = s4
+  have g4 : ∀ i, s4.get i = if e = i ∧ i < s2.nodes.length then
+      { s2.get i with seen := [], runs := (s2.get i).runs + 1, running := true } else s2.get i := by
+    intro i; subst hs4; exact noteRun_get s2 e i
+  have g4e : s4.get e = { s2.get e with seen := [], runs := (s2.get e).runs + 1, running := true } := by
+    rw [g4 e, if_pos ⟨rfl, he2⟩]
+  have g4o : ∀ i, i ≠ e → s4.get i = s2.get i := by
+    intro i hi; rw [g4 i, if_neg (fun hc => hi hc.1.symm)]
+  have log4 : LogOK s4 := by subst hs4; exact log3
+  have h4 : InvR p s4 := by
+    have hq2 : Quiet p s2 := ⟨h2, idle2⟩
+    have h3 := hq2.inv.updEff hk2 (fun n => { n with seen := [], runs := n.runs + 1, running := true })
+      hk2 rfl rfl (fun _ hx => by cases hx) (Nat.le_refl _) (fun _ => rfl)
+    refine h3.reobs (s' := s4) ?_ ?_
+    · subst hs4
+      unfold noteRun
+      simp only [State.emit_nodes]
+      split <;> rfl
+    · intro o ho
+      have : o = e := by subst hs4; simpa using ho.symm
+      subst this
+      rw [State.get_upd_same _ _ he2]
+  have l4 : EffLoc s4 e := by
+    refine ⟨by subst hs4; rfl, by rw [g4e]; exact hk2, by rw [g4e], ?_⟩
+    intro r hr
+    by_cases hre : r = e
+    · exact hre
+    · rw [g4o r hre, idle2 r] at hr; cases hr
+  have ver4 : ∀ i, (s4.get i).ver = (s.get i).ver := by
+    intro i; by_cases hi : i = e
+    · subst hi; rw [g4e]; exact ver2 i
+    · rw [g4o i hi]; exact ver2 i
+  have q4 : QJ s4 e := by
+    refine ⟨?_, ⟨by rw [g4e, t.gm]; rfl, ?_, by rw [g4e, t.gm, g1e]⟩, log4⟩
+    · intro i hki hri
+      have hie : i ≠ e := by intro hc; subst hc; rw [g4e] at hri; cases hri
+      have g : s4.get i = { s.get i with subs := (s.get i).subs.erase e } := by
+        rw [g4o i hie, t.go i hie, g1o i hie]
+      rw [g] at hki hri
+      have j := h.effJ i hki hri
+      refine ⟨by rw [g]; exact j.srcSeen, ?_, by rw [g]; exact j.firstJ⟩
+      intro hdi hruns
+      rw [g] at hdi hruns ⊢
+      obtain ⟨z, hz, hne⟩ := j.dirtyJ hdi hruns
+      exact ⟨z, hz, by rw [ver4]; exact hne⟩
+    · intro hd4
+      rw [g4e, t.gm, g1e] at hd4
+      rw [hd] at hd4; cases hd4
+  -- the body
+  obtain ⟨b, hb⟩ : ∃ b, p[e]? = some (.eff b) := by
+    have hd' : p[e]? = some p[e] := List.getElem?_eq_getElem hep
+    have := h.quiet.inv.kind e _ hd'
+    rw [hk] at this
+    cases hp : p[e] with
+    | eff b => exact ⟨b, by rw [hd', hp]⟩
+    | sig v => rw [hp] at this; cases this
+    | memo b => rw [hp] at this; cases this
+  have hbody := hpe e b hb
+  have hbo : bodyOf p e = b := by simp only [bodyOf, hb]
+  have ev := evalEff_spec hu (by omega) f (by omega) (bodyOf p e) s4 h4 l4
+    (by rw [hbo]; exact hbody.1) (by rw [hbo]; exact hbody.2.1) (by rw [hbo]; exact hbody.2.2)
+  have evq := evalEff_gen hu (e := e) (by omega) f (by omega) (fun s => QJ s e)
+    (fun s x h' hl' hq' hx hkx => hreadJ hu (by omega) s x h' hl' hq' hx hkx)
+    (fun s x v0 v h' hl' hq' hx => hwriteJ f (by omega) s x v0 v h' hl' hq' hx)
+    (bodyOf p e) s4 h4 l4 q4
+    (by rw [hbo]; exact hbody.1) (by rw [hbo]; exact hbody.2.1) (by rw [hbo]; exact hbody.2.2)
+  generalize evalE (readNode (upd p f)) (setSignal f) e (bodyOf p e) s4 = r at ev evq
+  obtain ⟨s8, v⟩ := r
+  simp only at ev evq ⊢
+  obtain ⟨h8, l8⟩ := ev
+  have h9 : InvR p ({ s8 with obs := none } : State) :=
+    h8.reobs rfl (fun o ho => by cases ho)
+  have he9 : e < ({ s8 with obs := none } : State).nodes.length := s8.lt_of_running l8.running
+  generalize hs10 : (({ s8 with obs := none } : State).upd e fun n =>
+    { n with val := some v, running := false, ver := (if ((s2.get e).val != some v) = true then n.ver + 1 else n.ver) }) = s10
+  have h10 : InvR p s10 := by
+    subst hs10
+    refine h9.updEff l8.kind _ l8.kind rfl rfl (fun _ hx => hx) ?_ (fun ho => by cases ho)
+    simp only [State.setObs_get]; split <;> omega
+  have g10e : s10.get e = { s8.get e with val := some v, running := false, ver := (if ((s2.get e).val != some v) = true then (s8.get e).ver + 1 else (s8.get e).ver) } := by
+    subst hs10; rw [State.get_upd_same _ _ he9]; rfl
+  have g10o : ∀ i, i ≠ e → s10.get i = s8.get i := by
+    intro i hi; subst hs10; rw [State.get_upd_ne _ _ (Ne.symm hi)]; rfl
+  have verMono : ∀ i, (s8.get i).ver ≤ (s10.get i).ver := by
+    intro i; by_cases hi : i = e
+    · subst hi; rw [g10e]; simp only; split <;> omega
+    · rw [g10o i hi]; exact Nat.le_refl _
+  have idle10 : ∀ i, (s10.get i).running = false := by
+    intro i; by_cases hi : i = e
+    · subst hi; rw [g10e]
+    · rw [g10o i hi]
+      cases hr : (s8.get i).running with
+      | false => rfl
+      | true => exact absurd (l8.only i hr) hi
+  refine ⟨⟨⟨h10, idle10⟩, ?_, ?_⟩, by rw [g10e]; exact l8.kind⟩
+  · intro i hki hri
+    by_cases hie : i = e
+    · subst hie
+      have hseen : (s10.get i).seen = (s8.get i).seen := by rw [g10e]
+      refine ⟨by rw [g10e]; exact evq.self.srcSeen, fun hd10 _ => ?_, fun hf10 => ?_⟩
+      · have hd8 : (s8.get i).dirty = true := by rw [g10e] at hd10; exact hd10
+        exact witness_mono h8 hseen verMono (evq.self.dirtyJ hd8)
+      · rw [g10e] at hf10
+        have := evq.self.noFirst
+        simp only at hf10
+        rw [this] at hf10; cases hf10
+    · have g := g10o i hie
+      rw [g] at hki hri
+      have j := evq.others i hki hri
+      refine ⟨by rw [g]; exact j.srcSeen, ?_, by rw [g]; exact j.firstJ⟩
+      intro hdi hruns
+      rw [g] at hdi hruns
+      exact witness_mono h8 (by rw [g]) verMono (j.dirtyJ hdi hruns)
+  · intro i
+    have : s10.log = s8.log := by subst hs10; rfl
+    rw [this]; exact evq.log i
+
+/-- flags that `EffJ` does not mention -/
+theorem TopJ.flagEff' {p : Prog} {s : State} (h : TopJ p s) {e : Nat} (hk : (s.get e).kind = .eff)
+    (g : Node → Node) (gc : ∀ n, (g n).kind = n.kind ∧ (g n).sources = n.sources ∧ (g n).subs = n.subs ∧
+      (g n).seen = n.seen ∧ (g n).ver = n.ver ∧ (g n).running = n.running ∧ (g n).runs = n.runs ∧
+      (g n).dirty = n.dirty ∧ (g n).first = n.first) :
+    TopJ p (s.upd e g) ∧ ((s.upd e g).get e).kind = .eff :=
+  h.flagEff hk g (fun n => ⟨(gc n).1, (gc n).2.1, (gc n).2.2.1, (gc n).2.2.2.1, (gc n).2.2.2.2.1,
+    (gc n).2.2.2.2.2.1⟩) (fun n => (gc n).2.2.2.2.2.2.1) (fun n hd => by rw [← (gc n).2.2.2.2.2.2.2.1]; exact hd)
+    (fun n hf => by rw [← (gc n).2.2.2.2.2.2.2.2]; exact hf)
+
+theorem effLoop_specJ {p : Prog} {f : Nat} (hu : UpdOK p (upd p f) f) (hf : p.length < f)
+    (hpe : EffOK p) (e : Nat) : ∀ (k : Nat) (s : State), TopJ p s → (s.get e).kind = .eff →
+      TopJ p (effLoop p f k s e)
+  | 0, s, h, _ => h
+  | k + 1, s, h, hk => by
+    rw [effLoop_succ]
+    split
+    · exact h
+    · obtain ⟨q1, hk1⟩ := h.flagEff' hk (fun n => { n with chan := false })
+        (fun _ => ⟨rfl, rfl, rfl, rfl, rfl, rfl, rfl, rfl, rfl⟩)
+      simp only
+      generalize (s.upd e fun n => { n with chan := false }) = s1 at q1 hk1
+      split
+      · exact effLoop_specJ hu hf hpe e k s1 q1 hk1
+      · obtain ⟨q3, hk3, hd3, hw3⟩ := effUpdate_specJ hu (by omega) q1 hk1
+        rw [q1.quiet.obs]
+        generalize effUpdate p f { s1 with obs := some e } e = r at q3 hk3 hd3 hw3
+        obtain ⟨s2, need⟩ := r
+        simp only at q3 hk3 hd3 hw3 ⊢
+        have hk3' : (({ s2 with obs := none } : State).get e).kind = .eff := hk3
+        split
+        · next hc =>
+          have hj : (({ s2 with obs := none } : State).get e).runs ≠ 0 →
+              ∃ z ∈ (({ s2 with obs := none } : State).get e).seen,
+                (({ s2 with obs := none } : State).get z.1).ver ≠ z.2.2 := by
+            intro hruns
+            by_cases hn : need = true
+            · exact hw3 hn hruns
+            · have hfirst : (({ s2 with obs := none } : State).get e).first = true := by
+                simp only [Bool.or_eq_true] at hc
+                rcases hc with hc | hc
+                · exact absurd hc hn
+                · exact hc
+              exact absurd ((q3.effJ e hk3' (q3.quiet.idle e)).firstJ hfirst) hruns
+          obtain ⟨q4, hk4⟩ := effRun_specJ hu hf hpe q3 hk3' hd3 hj
+          exact effLoop_specJ hu hf hpe e k _ q4 hk4
+        · exact effLoop_specJ hu hf hpe e k _ q3 hk3'
+
+theorem pollEff_specJ {p : Prog} (hp : MemoOK p) (hpe : EffOK p) {s : State} {e : Nat} (h : TopJ p s)
+    (hk : (s.get e).kind = .eff) : TopJ p (pollEff p s e) := by
+  unfold pollEff
+  obtain ⟨q1, hk1⟩ := h.flagEff' hk (fun n => { n with woken := false })
+    (fun _ => ⟨rfl, rfl, rfl, rfl, rfl, rfl, rfl, rfl, rfl⟩)
+  simp only
+  generalize (s.upd e fun n => { n with woken := false }) = s1 at q1 hk1
+  split
+  · exact (q1.flagEff' hk1 (fun n => { n with done := true })
+      (fun _ => ⟨rfl, rfl, rfl, rfl, rfl, rfl, rfl, rfl, rfl⟩)).1
+  · exact effLoop_specJ (upd_ok hp (fuelFor p)) (by simp [fuelFor]) hpe e 64 s1 q1 hk1
+
+theorem pollNth_specJ {p : Prog} (hp : MemoOK p) (hpe : EffOK p) {s : State} (h : TopJ p s) (i : Nat) :
+    TopJ p (pollNth p s i) := by
+  unfold pollNth
+  simp only
+  split
+  · exact h
+  · next hne =>
+    apply pollEff_specJ hp hpe h
+    apply ready_kind
+    have hpos : 0 < (ready s).length := by
+      cases hr : ready s with
+      | nil => rw [hr] at hne; simp at hne
+      | cons a l => simp
+    have hlt : i % (ready s).length < (ready s).length := Nat.mod_lt _ hpos
+    rw [List.getD_eq_getElem?_getD, List.getElem?_eq_getElem hlt]
+    exact List.getElem_mem hlt
+
+theorem runIdle_specJ {p : Prog} (hp : MemoOK p) (hpe : EffOK p) :
+    ∀ (k : Nat) (s : State), TopJ p s → TopJ p (runIdle p k s)
+  | 0, _, h => h
+  | k + 1, s, h => by
+    unfold runIdle
+    split
+    · exact h
+    · exact runIdle_specJ hp hpe k _ (pollNth_specJ hp hpe h 0)
+
+theorem TopJ.emit {p : Prog} {s : State} (h : TopJ p s) (ev : Ev) (hev : ∀ i, ev ≠ .unjust i) :
+    TopJ p (s.emit ev) :=
+  ⟨h.quiet.emit ev, fun i hk hr => ⟨(h.effJ i hk hr).srcSeen, (h.effJ i hk hr).dirtyJ, (h.effJ i hk hr).firstJ⟩,
+   h.log.emit hev⟩
+
+theorem init_topJ (p : Prog) : TopJ p (initState p) := by
+  refine ⟨init_quiet p, ?_, (init_topInv p).log⟩
+  intro i _ _
+  have := init_fields p i
+  exact ⟨by rw [this.1, this.2.2.1]; rfl, fun _ hr => absurd this.2.2.2.2.1 hr, fun _ => this.2.2.2.2.1⟩
+
+theorem step_topJ {p : Prog} (hp : MemoOK p) (hpe : EffOK p) {s : State}
+    (h : TopJ p s) (o : Op) : TopJ p (step p s o).1 := by
+  cases o with
+  | set id v =>
+    simp only [step]
+    split
+    · next v0 hx =>
+      have hf : s.nodes.length ≤ fuelFor p := by rw [h.quiet.inv.len]; simp [fuelFor]
+      obtain ⟨hi, sp⟩ := setSignal_inv h.quiet.inv hx v hf
+      refine ⟨⟨hi, fun i => (sp.running i).trans (h.quiet.idle i)⟩, ?_, sp.log h.log⟩
+      intro i hk hr
+      rw [sp.kind] at hk; rw [sp.running] at hr
+      exact (h.effJ i hk hr).of_set h.quiet.inv hx v sp hk
+    · exact h
+  | read m =>
+    simp only [step]
+    have htrack : track s m = s := by unfold track; rw [h.quiet.obs]
+    unfold readNode
+    rw [htrack]
+    simp only
+    cases hk : (s.get m).kind with
+    | eff => exact h
+    | sig => exact h
+    | memo =>
+      simp only
+      have hm : m < p.length := h.quiet.inv.memo_lt hk
+      have post := upd_ok hp (fuelFor p) s m h.quiet.inv (by simp only [fuelFor]; omega) (h.quiet.idle m)
+        (fun r hr => by rw [h.quiet.idle r] at hr; cases hr)
+      exact h.of_upd post
+  | poll i => exact pollNth_specJ hp hpe h i
+  | idle => exact runIdle_specJ hp hpe 256 s h
+  | pause e =>
+    simp only [step]
+    split
+    · next hk =>
+      exact (h.flagEff' (by simpa using hk) (fun n => { n with paused := true })
+        (fun _ => ⟨rfl, rfl, rfl, rfl, rfl, rfl, rfl, rfl, rfl⟩)).1
+    · exact h
+  | resume e =>
+    simp only [step]
+    split
+    · next hk =>
+      exact (h.flagEff' (by simpa using hk) (fun n => { n with paused := false })
+        (fun _ => ⟨rfl, rfl, rfl, rfl, rfl, rfl, rfl, rfl, rfl⟩)).1
+    · exact h
+  | dispose e =>
+    simp only [step]
+    split
+    · next hk =>
+      simp only [Bool.and_eq_true, beq_iff_eq] at hk
+      have q := (h.flagEff' hk.1 (fun n => { n with alive := false, woken := true })
+        (fun _ => ⟨rfl, rfl, rfl, rfl, rfl, rfl, rfl, rfl, rfl⟩)).1
+      split
+      · exact q.emit _ (by intro i; simp)
+      · exact q
+    · exact h
+
+theorem run_topJ {p : Prog} (hp : MemoOK p) (hpe : EffOK p) (ops : List Op) : TopJ p (run p ops) := by
+  unfold run
+  suffices ∀ s, TopJ p s → TopJ p (ops.foldl (fun s o => (step p s o).1) s) from
+    this _ (init_topJ p)
+  induction ops with
+  | nil => intro s h; exact h
+  | cons o ops ih => intro s h; exact ih _ (step_topJ hp hpe h o)
+
+/-- **C09**: no memo or effect body ever runs unjustified (tracked reads only) -/
+theorem no_unjust {p : Prog} (hwf : WF p = true) (ht : bodiesTracked p = true) (ops : List Op) :
+    ∀ i, Ev.unjust i ∉ (run p ops).log :=
+  (run_topJ (memoOK_of_wf hwf ht) (effOK_of_wf hwf ht) ops).log
+
 end Leptos.Reactive
